@@ -52,7 +52,23 @@ def failon2(x):
 
 
 def addk(x, y=0, k=0):
-    return x + y + k
+    return x + 2 * y + 3 * k
+
+
+def mklist(x):
+    """elements that are lists themselves (of length 1..3)"""
+    return [x, x + 1, x + 2][:x]
+
+
+def llen(v):
+    return len(v)
+
+
+DASK = False      # True while a program is being built on the Dask side (a second scatter after a gather)
+
+
+def _again(x):
+    return x.scatter() if DASK else x
 
 
 def add3(a, b, c=0):
@@ -90,7 +106,19 @@ PROGS = {
     # the first two is still being delivered through gather
     "fan3.union.partition": lambda s: s.map(inc).union(s.map(times10), s.map(neg)).partition(2),
     "fan3.union.sw": lambda s: s.map(inc).union(s.map(times10), s.map(neg)).sliding_window(2),
+    # node arguments that are not the user function's business
+    "map.name": lambda s: s.map(inc, stream_name="m"),
+    "starmap.name": lambda s: s.map(pair).starmap(add, stream_name="sum"),
+    "acc.name": lambda s: s.accumulate(add, start=0, stream_name="acc"),
+    # two segments in a row: ... gather() scatter() ...
+    "gather.scatter": lambda s: _again(s.map(inc).gather()).map(times10),
+    "gather.scatter.acc": lambda s: _again(s.accumulate(add).gather()).map(inc),
+    # elements that are lists (PRE: made from the emitted ints in front of scatter)
+    "list:len": lambda s: s.map(llen),
+    "list:id": lambda s: s,
+    "list:partition": lambda s: s.partition(2),
 }
+PRE = {"list:len": mklist, "list:id": mklist, "list:partition": mklist}
 PROGS2 = {
     "zip": lambda a, b: a.zip(b),
     "zip.map": lambda a, b: a.zip(b).map(tsum),
@@ -168,7 +196,7 @@ def _local_run2(prog, emits, two):
         srcs = {"a": a, "b": b}
     else:
         s = Stream()
-        out = PROGS[prog](s)
+        out = PROGS[prog](s.map(PRE[prog]) if prog in PRE else s)
         srcs = {"p": s}
     snk = out.gather().sink(lambda v: log.append(("in", _fz(v))))
     rcs = {}
@@ -236,7 +264,13 @@ class Dask(Scenario):
             self.add_producer("b", self.b, [10, 20][: p["n"]], mode="await", metadata=md)
         else:
             self.src = Stream(asynchronous=True, loop=self.ioloop)
-            out = PROGS[p["prog"]](self.src.scatter())
+            global DASK
+            DASK = True
+            try:
+                head = self.src.map(PRE[p["prog"]]) if p["prog"] in PRE else self.src
+                out = PROGS[p["prog"]](head.scatter())
+            finally:
+                DASK = False
             self.add_producer("p", self.src, list(range(1, p["n"] + 1)), mode="await", metadata=md)
         out.gather().sink(self.make_sink_fn("sync", "S"))
 
@@ -378,7 +412,12 @@ def conformance(ctx):
             for prog in PROGS:
                 s = Stream(asynchronous=True)
                 L = []
-                PROGS[prog](s.scatter()).gather().sink(lambda v: L.append(_fz(v)))
+                global DASK
+                DASK = True
+                try:
+                    PROGS[prog]((s.map(PRE[prog]) if prog in PRE else s).scatter()).gather().sink(lambda v: L.append(_fz(v)))
+                finally:
+                    DASK = False
                 for x in (1, 2, 3):
                     await s.emit(x)
                 await asyncio.sleep(0.3)
